@@ -65,7 +65,7 @@ GEN = {"fileio": ("FileIO.tla", "MC_FileIO.cfg", False), "wasm": ("MC_Wasm.tla",
        "fileconc": ("FileIO2.tla", "MC_FileIO2.cfg", False),
        "histories": ("MC_Builder.tla", "MC_Builder_{variant}_{tier}.cfg", False),
        "sessions": ("MC_RenderSession.tla", "MC_RenderSession_{tier}.cfg", True)}
-PROPS["C14"] = dict(scen=[("core", "histories:SeqEclMask", True), ("core", "histories:SeqModeVersion", True), ("core", "histories:EclMask", True), ("core", "histories:ModeVersion", True), ("core", "histories:EclVersion", True), ("core", "histories:SeqRejected", True), ("core", "histories:Rejected", True), ("core", "aftermath", True), ("core", "threads", True), ("core", "sessions", True), ("core", "soak", True)],
+PROPS["C14"] = dict(scen=[("core", "histories:SeqEclMask", True), ("core", "histories:SeqModeVersion", True), ("core", "histories:EclMask", True), ("core", "histories:ModeVersion", True), ("core", "histories:EclVersion", True), ("core", "histories:SeqRejected", True), ("core", "histories:Rejected", True), ("core", "aftermath", True), ("core", "walk", True), ("core", "threads", True), ("core", "sessions", True), ("core", "soak", True)],
                     mc={"quick": [], "thorough": []},
                     invariants="Deterministic, SnapshotIsRegisters, BuildReadOnly (MC_Builder, every interleaving of 2 builders x 2 threads; GEN -> replay); HNew/HSet/HBuild judged on the registers the model holds, equal registers => equal results, renders read-only and repeatable (TV)")
 
